@@ -350,10 +350,15 @@ func (s *socket) RecvMsg() (*protocol.Message, error) {
 }
 
 func (s *socket) AddPipe(pp protocol.Pipe) error {
+	// The queue length may be changed by SetOption at any time.
+	s.Lock()
+	sendQLen := s.sendQLen
+	s.Unlock()
+
 	p := &pipe{
 		p:      pp,
 		s:      s,
-		sendQ:  make(chan *protocol.Message, s.sendQLen),
+		sendQ:  make(chan *protocol.Message, sendQLen),
 		closeQ: make(chan struct{}),
 	}
 	pp.SetPrivate(p)
